@@ -30,7 +30,7 @@ type absStr struct {
 func kstr(s string) absStr { return absStr{true, s} }
 
 type musCfg struct {
-	state                                int64
+	state                       int64
 	closing, op1, op2, variable absStr
 }
 
